@@ -65,6 +65,15 @@ def start_bad(kind):
     """Returns (target string, server-or-None)."""
     kex = P.frame2(P.kexinit(['curve25519-sha256'], ['ssh-ed25519'], ['aes256-ctr'], ['hmac-sha2-256']))
     if kind == 'unresolvable': return 'nonexistent-host.invalid', None
+    if kind in ('refused-port-65535', 'refused-port-1'):     # boundary values of the legal port range (nothing listens there)
+        port = int(kind.rsplit('-', 1)[1])
+        s = socket.socket()
+        try:
+            s.settimeout(0.3); s.connect(('127.0.0.1', port)); s.close()
+            return None, None     # something does listen there on this machine: skip the archetype
+        except OSError:
+            s.close()
+        return '127.0.0.1:%d' % port, None
     if kind == 'refused':
         s = socket.socket(); s.bind(('127.0.0.1', 0)); port = s.getsockname()[1]; s.close()
         return '127.0.0.1:%d' % port, None
@@ -86,7 +95,7 @@ def start_bad(kind):
     return '127.0.0.1:%d' % srv.port, srv
 
 
-BAD = ['unresolvable', 'refused', 'silent', 'early-close', 'bad-blocksize', 'bad-crc', 'truncated-kexinit', 'zero-payload', 'garbage-banner', 'probe-garbage']
+BAD = ['unresolvable', 'refused', 'refused-port-65535', 'refused-port-1', 'silent', 'early-close', 'bad-blocksize', 'bad-crc', 'truncated-kexinit', 'zero-payload', 'garbage-banner', 'probe-garbage']
 
 
 def run(ctx):
@@ -99,8 +108,11 @@ def run(ctx):
         targets = {}
         for n, spec in healthy_specs().items():
             s = P.new_ssh2_server(spec, stall_limit=3.0); servers.append(s); targets[n] = '127.0.0.1:%d' % s.port
-        for k in BAD:
+        for k in list(BAD):
             t, s = start_bad(k)
+            if t is None:
+                BAD.remove(k)
+                continue
             targets[k] = t
             if s: servers.append(s)
         names = list(targets)
